@@ -57,8 +57,8 @@ def commissionRate (rate : Int) (holderValue : Int) : Int :=
 def commissionOf (rate : Int) (x : Int) : Int :=
   decTruncateInt (decMul rate (toDec x))
 
-/-- `EventVoteRecordPowerThreshold`: `66 * total / 100` with `sdk.Int.Quo` (truncated). -/
-def voteThreshold (num den : Int) (total : Int) : Int := Int.tdiv (num * total) den
+/-- `EventVoteRecordPowerThreshold`: `(66 * total + 99) / 100` with `sdk.Int.Quo` (truncated). -/
+def voteThreshold (num add den : Int) (total : Int) : Int := Int.tdiv (num * total + add) den
 
 def fits256 (x : Int) : Bool := x.natAbs < 2^256
 
